@@ -105,7 +105,12 @@ impl CanonicalAssets {
     }
 
     pub fn from_class_and_amount(class: AssetClass, amount: i128) -> Self {
-        Self(HashMap::from([(class, amount)]))
+        // an empty policy or name is no policy or name, as in the other constructors
+        match class {
+            AssetClass::Naked => Self::from_naked_amount(amount),
+            AssetClass::Named(name) => Self::from_named_asset(&name, amount),
+            AssetClass::Defined(policy, name) => Self::from_defined_asset(&policy, &name, amount),
+        }
     }
 
     pub fn from_naked_amount(amount: i128) -> Self {
